@@ -70,7 +70,7 @@ theorem startSrc_size (cfg : Cfg) (src : Src) (ctx : Option Nat) (g : G) :
   | unit => simp [startSrc]
   | sharedReady r => simp [startSrc]
   | sharedContract p f => simp [startSrc, mWait, mSrc]
-  | sharedKept p f pre => cases h : g.isSet p pre <;> simp [startSrc, h, mWait, mSrc]
+  | sharedKept e p f pre => cases h : g.isSet p pre <;> simp [startSrc, h, mWait, mSrc]
 
 theorem asyncFinish_size (ty : Nat) (own : Exec) (k : List Step) (lazy : Bool) (ctx : Option Nat) (o : Out)
     (B extra : Nat) (h : SizeOut B (mSteps k + extra) o) : SizeOut B extra (asyncFinish ty own k lazy ctx o) := by
